@@ -1,6 +1,7 @@
 import DS.Driver.RollD
 import DS.Driver.VMapD
 import DS.Driver.ErrFmtD
+import DS.Driver.StrLitD
 open DS.Driver
 
 def dispatch (line : String) : String :=
@@ -11,6 +12,7 @@ def dispatch (line : String) : String :=
     if t ∈ ["rng", "roll", "common", "coc", "fate", "wod", "dc"] then rollLine toks
     else if t == "vmap" then vmapLine toks
     else if t == "errfmt" then errfmtLine toks
+    else if t == "strscan" || t == "strescape" then strlitLine toks
     else "bad-op"
 
 partial def loop (hin : IO.FS.Stream) (hout : IO.FS.Stream) : IO Unit := do
